@@ -158,17 +158,22 @@ def _chunk_lm(items):
         rng = np.random.RandomState(seed)
         lg = rng.uniform(0.5, 2.0, size=(6, 4))
         lg = lg - np.log(np.exp(lg).sum(axis=1, keepdims=True))
+        lg2 = rng.uniform(0.5, 2.0, size=(5, 4))
+        lg2 = lg2 - np.log(np.exp(lg2).sum(axis=1, keepdims=True))
         runs = []
         try:
-            for _ in range(3):
-                boh = dec(lg)
-                runs.append(sorted((h.transcript, round(float(h.vis_sc), 9), round(float(h.lm_sc), 9)) for h in boh))
+            # the line, another line, the line again twice: all through ONE decoder / LM wrapper (beam width 1 included: the beam
+            # selection is then the identity, so nothing is copied unless the code copies it)
+            for m_ in (lg, lg2, lg, lg):
+                boh = dec(m_)
+                if m_ is not lg2:
+                    runs.append(sorted((h.transcript, round(float(h.vis_sc), 9), round(float(h.lm_sc), 9)) for h in boh))
         except Exception as e:
             out['failures'].append({'clause': 'no-exception', 'input': {'seed': seed, 'k': k, 'lm': 'training-mode LSTM with dropout'}, 'observed': repr(e)})
             continue
         if any(r != runs[0] for r in runs[1:]):
             out['failures'].append({'clause': 'same-line-twice-identical', 'input': {'seed': seed, 'k': k, 'lm': 'training-mode LSTM with dropout'},
-                                    'observed': 'decoding one matrix three times through one decoder gave %r / %r / %r' % (runs[0][:2], runs[1][:2], runs[2][:2])})
+                                    'observed': 'decoding one matrix first, after another line, and once more through one decoder gave %r / %r / %r' % (runs[0][:2], runs[1][:2], runs[2][:2])})
         if len(out['samples']) < 2:
             out['samples'].append({'seed': seed, 'k': k, 'hypotheses': len(runs[0])})
     return out
@@ -229,13 +234,13 @@ def run(ctx):
     ctx.add_bounded('engine-histories', 'one stub-network OCR engine instance: 5 earlier page line-width lists x 5 pages x batch sizes {1,2,8}',
                     res2['evaluations'], res2['evaluations'], True, res2['samples'], fails2, rule='every (history, page, batch size); all non-trivial',
                     clause='recognition of a page after any history equals recognition of the page alone')
-    res3 = bounded.pmap(_chunk_lm, bounded.shard([(sd, k) for sd in range(1, 9 if thorough else 5) for k in (2, 4)], 4))
+    res3 = bounded.pmap(_chunk_lm, bounded.shard([(sd, k) for sd in range(1, 9 if thorough else 5) for k in (1, 2, 4)], 4))
     fails3 = []
     if res3['failures']:
         f = sorted(res3['failures'], key=lambda f: str(f['input']))[0]
         fails3.append(Failure(sig('rt', 'LMWrapper', f['clause']), '%s: %s on %s' % (f['clause'], f['observed'], f['input']),
                               function='LMWrapper / CTCPrefixLogRawNumpyDecoder.__call__', input=f['input'], observed=f['observed'], clause=f['clause']))
-    ctx.add_bounded('lm-wrapper-determinism', 'real LMWrapper around a freshly constructed 2-layer LSTM LM with dropout (training mode as delivered) x seeds x beam widths {2,4}: one matrix decoded three times',
+    ctx.add_bounded('lm-wrapper-determinism', 'real LMWrapper around a freshly constructed 2-layer LSTM LM with dropout (training mode as delivered) x seeds x beam widths {1,2,4}: one matrix decoded first, after another line, and once more',
                     res3['evaluations'], res3['nontrivial'], True, res3['samples'], fails3, rule='every (seed, beam width)',
                     clause='processing the same line twice through one decoder gives identical hypotheses and scores')
     bounded.close()
